@@ -1,6 +1,6 @@
 SPECIFICATION TSpec
 CONSTANTS
-  ExactKnown = FALSE
+  ExactKnown = TRUE
 INVARIANT RanksOK
 INVARIANT BoundsOK
 INVARIANT KnownOK
